@@ -13,6 +13,7 @@
 EXTENDS FontCycleOps
 
 CONSTANTS GlyphCounts,   \* set of glyph counts to draw from (Focus = "random")
+          Span,          \* class definition tables are enumerated over this many consecutive glyphs
           IdxLens,       \* CFF INDEX data lengths to hit exactly (around the offset-size switches 255/256, 65535/65536)
           Dense,         \* TRUE: the version sweep visits every three-decimal rounding boundary, FALSE: every 25th
           Focus          \* "random": every field from its full domain (for -simulate)
@@ -22,6 +23,12 @@ CONSTANTS GlyphCounts,   \* set of glyph counts to draw from (Focus = "random")
                          \*   shapes     glyf table sizes x raw-table layouts (TrueType), multi-subtable cmap
                          \*   glyphs     composite nesting x instructions of composites nil / empty / even / odd length
                          \*   index      CFF / CID-keyed CFF: Name, String, CharStrings INDEX with data of exactly IdxLens bytes
+                         \*   hints      CFF stem hint counts around the operand-stack limits x masks x width operand
+                         \*   classes    every class definition table over Span glyphs with classes 0..2, in all its uses
+                         \*   coverage   every non-empty coverage table over the glyphs 0..7, in all its uses
+                         \*   pairs      scalars related by an order or a consistency rule, through both orders and equality:
+                         \*              created/modified, ascent/descent/line gap, underline position/thickness,
+                         \*              cap/x height, italic angle/IsItalic/IsOblique, code page halves
                          \*   big        tables larger than the 1024-byte window of parser.Parser: GDEF class definitions,
                          \*              script / feature / lookup lists of GSUB and GPOS, name
                          \*   onefactor  one scalar field at a time through its domain (extremes included) x outline kind
@@ -53,7 +60,7 @@ Versions == { <<0, 0>>, <<1, 0>>, <<1, 32768>>, <<2, 66>>, <<1, 4096>>, <<0, 655
 Instants == { <<-226, 4825216>>, <<-125, 14307201>>, <<0, 0>>, <<59, 10144256>>, <<127, 16777215>>, <<128, 0>>,
               <<255, 16777215>>, <<15103, 16007551>> }
 
-FieldNames == << "group", "vary", "wantdom", "kind", "fds", "cmap", "comp", "cinstr", "names", "n", "glyfsize", "rawtabs", "cffidx", "idxlen", "big", "gsub", "gpos", "gdef", "tags", "scripts", "weight", "width", "angle", "fam", "times", "tinst", "frac", "ver", "strs", "upm", "asc", "desc", "gap", "cap", "xh", "ulp", "ult", "perm", "flags", "fin" >>
+FieldNames == << "group", "vary", "wantdom", "kind", "fds", "cmap", "comp", "cinstr", "names", "n", "glyfsize", "rawtabs", "cffidx", "idxlen", "hcnt", "ocnt", "hdir", "hmask", "hwidth", "big", "ctab", "cov", "gsub", "gpos", "gdef", "tags", "scripts", "weight", "width", "angle", "fam", "times", "tinst", "trel", "frac", "ver", "strs", "upm", "asc", "desc", "gap", "cap", "xh", "ulp", "ult", "perm", "cpr", "flags", "fin" >>
 Field(i) == FieldNames[i]
 NSteps == Len(FieldNames) + 1
 
@@ -61,7 +68,16 @@ NSteps == Len(FieldNames) + 1
 Scalars == {"weight", "width", "angle", "fam", "times", "tinst", "ver", "strs", "upm", "asc", "desc", "gap", "cap",
             "xh", "ulp", "ult", "perm", "cmap"}
 
-Groups == {"layout", "shapes", "glyphs", "index", "big", "onefactor", "sweep"}
+Groups == {"layout", "shapes", "glyphs", "index", "hints", "big", "classes", "coverage", "pairs", "onefactor", "sweep"}
+\* groups of scalars with an ordering or consistency relation between them ("pairs")
+PairVars == {"times", "vmetrics", "underline", "heights", "slant", "cpr"}
+PairFields(v) == CASE v = "times"     -> {"times", "tinst", "trel", "frac"}
+                   [] v = "vmetrics"  -> {"asc", "desc", "gap"}
+                   [] v = "underline" -> {"ulp", "ult"}
+                   [] v = "heights"   -> {"cap", "xh"}
+                   [] v = "slant"     -> {"angle", "flags"}
+                   [] v = "cpr"       -> {"cpr"}
+                   [] OTHER           -> {}
 SweepVars == {"weight", "width", "angle", "ulp", "ult", "ver", "upm"}
 G(c, g) == Focus = "cover" /\ c.group = g
 
@@ -82,10 +98,11 @@ NoFlag == [k \in 1..6 |-> FALSE]
 \* full domain of field f, given the fields chosen so far
 Domain(f, c) ==
   CASE f = "group" -> IF Focus = "cover" THEN Groups ELSE {"random"}
-    [] f = "vary"  -> IF G(c, "onefactor") THEN Scalars ELSE IF G(c, "sweep") THEN SweepVars ELSE {"-"}
+    [] f = "vary"  -> IF G(c, "onefactor") THEN Scalars ELSE IF G(c, "sweep") THEN SweepVars
+                      ELSE IF G(c, "pairs") THEN PairVars ELSE {"-"}
     [] f = "wantdom"  -> BOOLEAN
     [] f = "kind"  -> IF Focus = "random" \/ G(c, "big") THEN {"ttf", "cff", "cid"}
-                      ELSE IF G(c, "index") THEN {"cff", "cid"} ELSE {"ttf", "cff"}
+                      ELSE IF G(c, "index") \/ G(c, "hints") THEN {"cff", "cid"} ELSE {"ttf", "cff"}
     [] f = "fds"  -> IF c.kind = "cid" THEN {1, 3} ELSE {1}
     [] f = "cmap"  -> {"4", "12", "none", "multi"}
     [] f = "comp"  -> IF c.kind = "ttf" THEN {0, 1, 3} ELSE {0}
@@ -106,9 +123,24 @@ Domain(f, c) ==
                          \* (the strings of the String INDEX also live in the name table, whose storage is limited
                          \* to 64 kB: only the CharStrings INDEX is taken to the 65535/65536 switch)
                          ELSE IF c.cffidx # "charstrings" \/ Focus = "random" THEN {l \in IdxLens : l < 1000} ELSE IdxLens
+    \* CFF stem hints of one glyph: hcnt pairs in direction hdir, ocnt pairs in the other direction (one hstem/vstem
+    \* operator takes 24 pairs, 23 next to a width; Type 2 allows 96 in all), with or without hintmask operators,
+    \* with a width operand (the glyph's width differs from the default width) or without
+    [] f = "hcnt"     -> IF c.kind # "ttf" /\ (G(c, "hints") \/ Focus = "random") THEN {0, 1, 23, 24, 25, 48, 49, 96} ELSE {0}
+    [] f = "ocnt"     -> IF c.hcnt = 0 \/ c.hcnt = 96 THEN {0} ELSE {0, 1, 24}
+    [] f = "hdir"     -> IF c.hcnt = 0 THEN {"h"} ELSE {"h", "v"}
+    [] f = "hmask"    -> IF c.hcnt = 0 THEN {FALSE} ELSE BOOLEAN
+    [] f = "hwidth"   -> IF c.hcnt = 0 THEN {FALSE} ELSE BOOLEAN
     \* a table that is larger than the parser's 1024-byte window
     [] f = "big"      -> IF G(c, "big") THEN {"gdef", "scripts", "features", "lookups", "name"}
                          ELSE {"off", "gdef", "scripts", "features", "lookups", "name"}
+    \* a class definition table over the glyphs 10 .. 10+Span-1 (class 0 = not in the table), used as GDEF glyph
+    \* classes and mark attachment classes, in class-based (chained) context lookups and in a class-based pair lookup;
+    \* ALL such tables with classes 0..2 are enumerated
+    [] f = "ctab"     -> IF G(c, "classes") THEN [1..Span -> 0..2] \ {[i \in 1..Span |-> 0]} ELSE {<<>>}
+    \* a coverage table: ALL non-empty subsets of the glyphs 0..7, used in single substitutions, a coverage-based
+    \* context lookup, a single adjustment and a mark glyph set
+    [] f = "cov"      -> IF G(c, "coverage") THEN (SUBSET (0..7)) \ {{}} ELSE {{}}
     [] f = "gsub"  -> IF G(c, "layout") THEN {"liga", "multi"} ELSE {"none", "liga", "multi"}
     [] f = "gpos" -> {"none", "pair", "multi"}
     [] f = "gdef" -> BOOLEAN
@@ -121,6 +153,8 @@ Domain(f, c) ==
     [] f = "fam" -> {"plain", "bold", "italic", "semibold"}
     [] f = "times" -> {"c", "m", "both"}
     [] f = "tinst" -> Instants
+    \* the modification time relative to the creation time (both set): a day later, the same instant, a day earlier
+    [] f = "trel" -> {"after", "equal", "before"}
     [] f = "frac" -> BOOLEAN
     [] f = "ver" -> IF G(c, "sweep") THEN Sweep("ver") ELSE Versions
     [] f = "strs" -> {"ascii", "latin1", "bmp", "astral", "empty"}
@@ -133,7 +167,10 @@ Domain(f, c) ==
     [] f = "ulp" -> IF G(c, "sweep") THEN Sweep("ulp") ELSE {-131072, -400, -261, 0, 131068}      \* quarter units: -32768, -100, -65.25, 0, 32767
     [] f = "ult" -> IF G(c, "sweep") THEN Sweep("ult") ELSE {-200, 0, 200, 203, 131068}           \* quarter units: -50, 0, 50, 50.75, 32767
     [] f = "perm" -> 0..3
+    \* code page ranges: none, a low bit, a bit of the upper 32, both halves
+    [] f = "cpr"  -> {"none", "low", "high", "both"}
     [] f = "flags" -> IF G(c, "sweep") THEN {Regular, BoldOnly, NoFlag}
+                      ELSE IF G(c, "pairs") THEN {[k \in 1..6 |-> (k = 3 /\ i) \/ (k = 4 /\ o)] : i \in BOOLEAN, o \in BOOLEAN}
                       ELSE {fl \in FlagSets : c.wantdom => InDom(Abs(c, fl))}
     [] f = "fin" -> {0}     \* one successor only: the terminal state (and its Emit) is reached once per behaviour
 
@@ -143,6 +180,8 @@ Default(f, c) ==
     [] f = "comp"  -> 0       [] f = "cinstr" -> "off"   [] f = "names"  -> c.kind = "ttf" /\ ~G(c, "sweep")
     [] f = "n" -> IF G(c, "big") THEN 700 ELSE IF G(c, "sweep") THEN 2 ELSE IF G(c, "index") THEN 3 ELSE 30
     [] f = "cffidx" -> "off"  [] f = "idxlen" -> 0  [] f = "big" -> "off"
+    [] f = "hcnt" -> 0  [] f = "ocnt" -> 0  [] f = "hdir" -> "h"  [] f = "hmask" -> FALSE  [] f = "hwidth" -> FALSE
+    [] f = "ctab" -> <<>>  [] f = "cov" -> {}  [] f = "trel" -> "after"  [] f = "cpr" -> "low"
     [] f = "glyfsize" -> 0  [] f = "rawtabs" -> "none"
     [] f = "gsub"  -> IF G(c, "sweep") THEN "none" ELSE "liga"
     [] f = "gpos" -> IF G(c, "sweep") THEN "none" ELSE "pair"
@@ -167,6 +206,10 @@ Varied(i, c) ==
   \/ G(c, "big") /\ f \in {"kind", "big"}
   \/ G(c, "onefactor") /\ (f \in {"vary", "kind"} \/ f = c.vary)
   \/ G(c, "sweep") /\ (f = "vary" \/ f = c.vary \/ (f = "flags" /\ c.vary = "weight"))
+  \/ G(c, "hints") /\ f \in {"kind", "hcnt", "ocnt", "hdir", "hmask", "hwidth"}
+  \/ G(c, "classes") /\ f = "ctab"
+  \/ G(c, "coverage") /\ f = "cov"
+  \/ G(c, "pairs") /\ (f \in {"vary", "kind"} \/ f \in PairFields(c.vary))
 
 Choices(i, c) == IF Varied(i, c) THEN Domain(Field(i), c) ELSE {Default(Field(i), c)}
 
@@ -181,7 +224,9 @@ Spec == Init /\ [][Next]_vars
 Done == step = NSteps
 Out(c) == [ kind |-> c.kind, fds |-> c.fds, cmap |-> c.cmap, comp |-> c.comp, names |-> c.names, n |-> c.n,
             cinstr |-> c.cinstr, glyfsize |-> c.glyfsize, rawtabs |-> c.rawtabs,
-            cffidx |-> c.cffidx, idxlen |-> c.idxlen, big |-> c.big, group |-> c.group, gsub |-> c.gsub, gpos |-> c.gpos, gdef |-> c.gdef, tags |-> c.tags, scripts |-> c.scripts,
+            cffidx |-> c.cffidx, idxlen |-> c.idxlen, big |-> c.big,
+            hcnt |-> c.hcnt, ocnt |-> c.ocnt, hdir |-> c.hdir, hmask |-> c.hmask, hwidth |-> c.hwidth,
+            ctab |-> c.ctab, cov |-> c.cov, trel |-> c.trel, cpr |-> c.cpr, group |-> c.group, gsub |-> c.gsub, gpos |-> c.gpos, gdef |-> c.gdef, tags |-> c.tags, scripts |-> c.scripts,
             reg |-> c.flags[1], bold |-> c.flags[2], ital |-> c.flags[3], obl |-> c.flags[4],
             serif |-> c.flags[5], script |-> c.flags[6],
             weight |-> c.weight, width |-> c.width, angle |-> c.angle, fam |-> c.fam, times |-> c.times,
